@@ -252,6 +252,10 @@ fn bound_decls() -> Vec<(&'static str, &'static str, &'static str, Vec<&'static 
         ("", "deps: impl A + B", "", vec!["A", "B"]),
         ("<D: A>", "deps: D", "where D: B", vec!["A", "B"]),
         ("<D: path::A<u8> + 'static>", "deps: &D", "", vec!["path :: A < u8 >", "'static"]),
+        // a relaxed bound widens the declaration of the parameter; it is not a requirement on the implementing type
+        ("<D: A + ?Sized>", "deps: &D", "", vec!["A"]),
+        ("", "deps: &(impl A + ?Sized + B)", "", vec!["A", "B"]),
+        ("<D: A>", "deps: &D", "where D: ?Sized + B", vec!["A", "B"]),
     ]
 }
 
@@ -260,10 +264,12 @@ fn bound_strings(b: &syn::punctuated::Punctuated<syn::TypeParamBound, syn::token
 }
 
 fn c04_header(_ctx: &Ctx, r: &mut Report) {
-    r.domain = "14 ways of declaring 0..3 dependency bounds (inline, where, split, several predicates, impl A + B, by value) x {fn, mod of two fns with different declarations} x option sets {none, mockall, unimock + mock_api, ?Send, ?Send + mockall}".into();
+    r.domain = "17 ways of declaring 0..3 dependency bounds (inline, where, split, several predicates, impl A + B, by value, with `?Sized`) x {fn, mod of two fns with different declarations} x option sets {none, mockall, unimock + mock_api, ?Send, ?Send + mockall, mockall = false, unimock = false + mock_api, unimock = false + mock_api + mockall, unimock (no mock_api) + mockall = false}".into();
     r.bound = "exhaustive over the listed declarations and all ordered pairs for modules".into();
     let decls = bound_decls();
-    let mocks: [(&str, bool); 5] = [("", false), ("mockall", true), ("unimock, mock_api = TrMock", true), ("?Send", false), ("?Send, mockall", true)];
+    // "mock support" is about what is switched on, not about what is written: `= false` counts like an absent option
+    let mocks: [(&str, bool); 9] = [("", false), ("mockall", true), ("unimock, mock_api = TrMock", true), ("?Send", false), ("?Send, mockall", true),
+        ("mockall = false", false), ("unimock = false, mock_api = TrMock", false), ("unimock = false, mock_api = TrMock, mockall = true", true), ("unimock, mockall = false", false)];
     let mut cases: Vec<(String, String, Vec<String>, bool, bool)> = vec![]; // (attr, item, bounds, by_value, mockable)
     for (mock, mockable) in mocks {
         let attr = if mock.is_empty() { "Tr".to_string() } else { format!("Tr, {}", mock) };
@@ -359,9 +365,12 @@ fn c04_header(_ctx: &Ctx, r: &mut Report) {
 // ------------------------------------------------------------------------------------ C05
 
 fn c05_concrete(_ctx: &Ctx, r: &mut Report) {
-    r.domain = "concrete dependency type shapes {App, path::App, App<u8>, (A, B), &'a App, [u8; 4], &mut-free references, parenthesised} x {sync, async} x {fn, mod, impl block}".into();
+    r.domain = "concrete dependency type shapes {App, path::App, ::abs::path::App, <App as HasDb>::Db, App<u8>, (A, B), &'a App, [u8; 4], &mut-free references, parenthesised} x {sync, async} x {fn, mod, impl block}".into();
     r.bound = "exhaustive over the listed shapes".into();
-    let shapes: [(&str, &str, &str); 8] = [
+    let shapes: [(&str, &str, &str); 11] = [
+        ("", "&::abs::path::App", ":: abs :: path :: App"),
+        ("", "&<App as HasDb>::Db", "< App as HasDb > :: Db"),
+        ("", "&::App", ":: App"),
         ("", "&App", "App"),
         ("", "&path::to::App", "path :: to :: App"),
         ("", "&App<u8>", "App < u8 >"),
